@@ -7,7 +7,7 @@ CONSTANTS Level, NChunks
 VARIABLES e, chunk
 \* NB: the universes take a (dummy) parameter on purpose - TLC evaluates every parameterless constant-level definition
 \* eagerly at start-up, also the ones a configuration does not use
-E1(z) == Leaf \cup MapReduces \cup Combos
+E1(z) == Leaf \cup MapReduces \cup Combos \cup Chains
 Ops2(z) == E1(z) \cup Twice \cup Stacks(Leaf, {2})
 \* a fan-in that is not the tail of a copied scope / base: MapReduce >> mapper >> stack, stack of (MapReduce >> mapper)
 FanIn(z) == Seqs(Seqs(MapReduces, Mappers), Stacks(Mappers, {2})) \cup Stacks(Seqs(MapReduces, Mappers), {2})
@@ -24,7 +24,7 @@ E3(z) == Seqs(Seqs(Leaf, Leaf), O3(z)) \cup Seqs(Leaf, Seqs(Leaf, O3(z)))
          \cup Stacks(Seqs(L3(z), L3(z)), {2}) \cup Seqs(Mappers, Stacks(Seqs(L3(z), L3(z)), {2}))
 \* the universe is spread over NChunks initial states so that TLC's workers evaluate the denotations in parallel
 OpCode(o) == CASE o = "seq" -> 1 [] o = "mapper" -> 2 [] o = "apply" -> 3 [] o = "train" -> 4 [] o = "label" -> 5
-               [] o = "dump" -> 6 [] o = "lmapper" -> 11 [] o = "lapply" -> 12 [] o = "ltrain" -> 13 [] o = "mapreduce" -> 7 [] o = "twice" -> 8 [] o = "stack" -> 9 [] OTHER -> 10
+               [] o = "dump" -> 6 [] o = "lmapper" -> 11 [] o = "lapply" -> 12 [] o = "ltrain" -> 13 [] o = "mapreduce" -> 7 [] o = "twice" -> 8 [] o = "stack" -> 9 [] o = "chain" -> 14 [] OTHER -> 10
 RECURSIVE Hsh(_)
 Hsh(x) == LET RECURSIVE Kids(_) Kids(i) == IF i > Len(x.kids) THEN 0 ELSE (7 * i + 1) * Hsh(x.kids[i]) + Kids(i + 1)
           IN (OpCode(x.op) + (IF x.sf THEN 11 ELSE 0) + 3 * x.k + Kids(1)) % 9973
